@@ -9,6 +9,8 @@ import TflModel.Driver.Regularizers
 import TflModel.Driver.Ensembles
 import TflModel.Driver.Keypoints
 import TflModel.Driver.Asserts
+import TflModel.Driver.Premade
+import TflModel.Driver.Verify
 import TflModel.Driver.Alt
 import TflModel.Driver.Initializers
 import TflModel.Driver.Units
@@ -26,6 +28,8 @@ def handlers : List (String × Handler) :=
   Tfl.Driver.Ensembles.handlers ++
   Tfl.Driver.Keypoints.handlers ++
   Tfl.Driver.Asserts.handlers ++
+  Tfl.Driver.Premade.handlers ++
+  Tfl.Driver.Verify.handlers ++
   Tfl.Driver.Alt.handlers ++
   Tfl.Driver.Initializers.handlers ++
   Tfl.Driver.Units.handlers
